@@ -336,6 +336,16 @@ theorem frame_keeps_invariant {src : Nat → UInt8} {s : RStream} (h : SInv src 
     (s.handleStreamFrame off (srcSeg src off len) fin cb).s.readPos = s.readPos :=
   frame_sinv h off len fin cb hmax hok
 
+/-- **RESET_STREAM / RESET_STREAM_AT.** From every state: `Read` reports the cancellation error only when
+the stream was cancelled locally, or the peer reset it *and* the read position has reached the reliable
+size — the reliable prefix (which by `read_exact` consists of source bytes) is delivered before the
+reset error. -/
+theorem reset_after_reliable_prefix (s : RStream) (n : Nat) (e : Option (Nat × Bool))
+    (h : (s.read n).status = .cancelled e) :
+    (s.read n).s.cancelledLocally = true ∨
+    ((s.read n).s.cancelledRemotely = true ∧ (s.read n).s.readPos ≥ (s.read n).s.reliableSize) :=
+  read_cancel_spec s n e h
+
 /-- **reader (all histories).** For every finite sequence of STREAM frames cut from the one source string
 (any order, overlap, duplication, FIN anywhere), RESET_STREAM / RESET_STREAM_AT, reads and peeks of
 arbitrary sizes, CancelRead, closeForShutdown and control-frame pulls, up to the first frame or reset the
